@@ -17,10 +17,17 @@ type PhaseResult struct {
 
 // SpawnPhase runs `<this binary> phase <kind> <args...>` as a child process with a generous wall-clock watchdog.
 func SpawnPhase(dir, kind string, timeout time.Duration, env []string, args ...string) PhaseResult {
+	return SpawnPhaseWrapped(dir, nil, kind, timeout, env, args...)
+}
+
+// SpawnPhaseWrapped runs the phase under a wrapper command (e.g. strace ... --), used by syscall-level monitors.
+func SpawnPhaseWrapped(dir string, wrapper []string, kind string, timeout time.Duration, env []string, args ...string) PhaseResult {
 	exe, _ := os.Executable()
 	errPath := filepath.Join(dir, "phase.stderr")
 	ef, _ := os.OpenFile(errPath, os.O_CREATE|os.O_WRONLY|os.O_TRUNC, 0o644)
-	cmd := exec.Command(exe, append([]string{"phase", kind}, args...)...)
+	argv := append(append([]string{}, wrapper...), exe, "phase", kind)
+	argv = append(argv, args...)
+	cmd := exec.Command(argv[0], argv[1:]...)
 	cmd.Stdout, cmd.Stderr = ef, ef
 	cmd.Env = append(append(os.Environ(), "LOG_LEVEL=fatal"), env...)
 	cmd.SysProcAttr = &syscall.SysProcAttr{Setpgid: true}
